@@ -187,6 +187,7 @@ type installation struct {
 	exprDepth     int
 	stmtDepth     int
 	bailed        bool // a bailout happened during the current parse
+	muted         bool // parties pass through without recording or acting (nested sibling parse)
 	inStmtReenter bool
 }
 
@@ -246,8 +247,15 @@ const subProgram = "function q(u) { if (u) { let z = function () { return { k: [
 
 func (x *installation) nestedParse() {
 	x.st.Inc("probe.nested_parser_run_inside_interceptor")
-	o := xutil.Parse(xutil.PlainBuilder(x.m), subProgram)
-	_ = o
+	if x.ch.Bool(1, 2) {
+		// a sibling: another parser of the SAME builder (its parties stay silent meanwhile)
+		x.st.Inc("probe.nested_parser_built_from_the_same_builder")
+		x.muted = true
+		xutil.Parse(x.pb, subProgram)
+		x.muted = false
+		return
+	}
+	xutil.Parse(xutil.PlainBuilder(x.m), subProgram)
 }
 
 // installVia installs one party directly or through a plugin. Plugins come in the spellings users
@@ -284,6 +292,9 @@ func (x *installation) add(k byte, via bool) {
 			idx := x.ti
 			x.ti++
 			f := func(l *lexer.Lexer, next func() token.Token) token.Token {
+				if x.muted {
+					return next() // a sibling parser of the same builder is at work inside an interceptor
+				}
 				// the property fixes no order for token interceptors: whichever party runs outermost counts the pull
 				outermost := r.tDepth == 0
 				if outermost {
@@ -306,6 +317,9 @@ func (x *installation) add(k byte, via bool) {
 			idx := x.si
 			x.si++
 			f := func(p *parser.Parser, next func() ast.Statement) (result ast.Statement) {
+				if x.muted {
+					return next()
+				}
 				entry := p.CurrentToken
 				ord := r.ordinal(entry)
 				if in.bailout {
@@ -364,6 +378,9 @@ func (x *installation) add(k byte, via bool) {
 			idx := x.ei
 			x.ei++
 			f := func(p *parser.Parser, next func() ast.Expression) ast.Expression {
+				if x.muted {
+					return next()
+				}
 				entry := p.CurrentToken
 				ord := r.ordinal(entry)
 				re := false
@@ -1039,9 +1056,9 @@ func (e *Engine) Run(prop string, ch *kernel.Chooser, st *kernel.Stats) kernel.R
 			if curBuild > 0 {
 				faults = nil
 			}
-			if len(faults) > 600 {
+			if len(faults) > 300 {
 				// very large (deep-nest) programs: a seeded sample of the fault positions
-				step := len(faults)/600 + 1
+				step := len(faults)/300 + 1
 				off := ch.Choose(step)
 				var sampled []faultsim.Fault
 				for i := off; i < len(faults); i += step {
@@ -1133,9 +1150,9 @@ func init() {
 				return kernel.TierSpec{Runs: 30_000_000, WallSeconds: 1200, ShrinkSecs: 180, RunBudgetMs: 30000}
 			}
 			if prop == "C16" {
-				return kernel.TierSpec{Runs: 6000, WallSeconds: 60, ShrinkSecs: 20, RunBudgetMs: 10000}
+				return kernel.TierSpec{Runs: 6000, WallSeconds: 60, ShrinkSecs: 20, RunBudgetMs: 30000}
 			}
-			return kernel.TierSpec{Runs: 200_000, WallSeconds: 45, ShrinkSecs: 20, RunBudgetMs: 10000}
+			return kernel.TierSpec{Runs: 200_000, WallSeconds: 45, ShrinkSecs: 20, RunBudgetMs: 20000}
 		},
 		Rule:      "each run = one seeded program (valid, or with one injected fault) x one parser mode x one seeded installation of 0..8 token, statement and expression interceptors (direct or via Install, seeded registration order) x a seeded per-invocation action schedule (pass / re-enter / run an independent nested parser first) x 1..3 parsers built one after the other from the same builder, with parties possibly installed between two builds; every parser is compared with the zero-interceptor run and a one-observer run; C16 additionally checks the final context state on every enumerated fault x 4 modes; distinct = distinct (input text, installation, mode, history length); non-trivial = at least one interceptor and at least 4 tokens",
 		Real:      []string{"lexer (interceptor chain)", "parser (interceptor chains, context stack, all modes)", "ast", "compiler (compact + one pretty configuration, for the output clause)"},
@@ -1148,7 +1165,7 @@ func init() {
 		},
 		RequiredProbes: map[string][]string{
 			"C04": {"probe.reentrant_invocations", "probe.reentrant_at_depth_ge3", "probe.reentrant_party_before_passthrough_party", "probe.installed_via_plugin", "probe.malformed_with_errors_under_many_interceptors", "probe.eight_of_each_kind", "probe.builder_reused_for_another_parser", "probe.party_installed_between_two_builds", "probe.nested_parser_run_inside_interceptor", "probe.reentrant_via_specific_public_parse_function", "probe.plugin_uses_captured_builder", "probe.plugin_installs_nested_plugin", "fault.odd_prefix"},
-			"C16": {"probe.depth_ge5", "probe.function_body_direct", "probe.funcexpr_in_call_argument", "probe.funcexpr_in_object_value", "probe.funcexpr_in_condition", "probe.final_state_checked_on_erroring_input", "probe.nested_parser_run_inside_interceptor", "probe.builder_reused_for_another_parser", "probe.bailout_recovered_by_outer_interceptor", "probe.bailout_thrown_inside_function_body", "probe.reentrant_via_ParseFunctionExpression", "probe.context_stack_depth_ge40", "probe.public_ParseStatement_inside_function_body"},
+			"C16": {"probe.depth_ge5", "probe.function_body_direct", "probe.funcexpr_in_call_argument", "probe.funcexpr_in_object_value", "probe.funcexpr_in_condition", "probe.final_state_checked_on_erroring_input", "probe.nested_parser_run_inside_interceptor", "probe.builder_reused_for_another_parser", "probe.bailout_recovered_by_outer_interceptor", "probe.bailout_thrown_inside_function_body", "probe.reentrant_via_ParseFunctionExpression", "probe.context_stack_depth_ge40", "probe.public_ParseStatement_inside_function_body", "probe.nested_parser_built_from_the_same_builder"},
 		},
 	})
 }
